@@ -101,6 +101,12 @@ Definition unit_vars : Z := 2.
 Definition unit_valid : Z := 9.
 Definition unit_cost : Z := 20.
 
+(** the validator rules that do not follow fragment spreads (arguments, directives, values,
+    operations, fragment declarations, type info: every file of graphql/validator other than
+    validate_fields / _fragments / _variables / _cost) are ast.Inspect passes that do a bounded amount
+    of work per AST node: measured 32 .. 49 statements per node on every document of the corpus *)
+Definition unit_other : Z := 40.
+
 (** linear passes of the validator (type info, one ast.Inspect per rule) *)
 Definition linear_passes : Z := 10.
 
@@ -112,6 +118,7 @@ Record run := {
   r_outcome : outcome;
   r_enter : Z; r_exit : Z;
   r_work_scan : Z; r_work_parse : Z; r_work_fields : Z; r_work_frags : Z; r_work_vars : Z; r_work_valid : Z;
+  r_work_other : Z;
   r_doc : option doc;
   r_cost : option (outcome * Z);       (* run with ValidateCost: outcome, extra statements *)
   r_ns : Z; r_cost_ns : Z; r_timed : bool
@@ -145,6 +152,8 @@ Definition oracle (r : run) : option string :=
         then Some "fragment-cycle-search-work"%string
         else if headroom * unit_vars * (n_ops D + n_frags D + var_steps_bound D) <? r_work_vars r
         then Some "variable-walk-work"%string
+        else if headroom * unit_other * (d_nodes D + 1) <? r_work_other r
+        then Some "other-rules-work"%string
         else if headroom * unit_valid * (linear_passes * d_nodes D + merge_steps_bound D + cycle_steps_bound D + var_steps_bound D)
                 <? r_work_valid r
         then Some "validate-work"%string
